@@ -492,4 +492,368 @@ theorem mem_payeeLocs (name : Bytes) (hne : name ≠ []) (incl : Bool) (path : P
       | year y r => cases hn
       | defaultCommodity s f r => cases hn
 
+/-! ### findDefinitionTarget -/
+
+def tgt (n : TNode) : Target := ⟨n.kind, n.name, toLsp n.range⟩
+
+theorem u32pred_of_sane (n : Nat) (h1 : 1 ≤ n) (h2 : n ≤ 4294967296) : u32pred n = n - 1 := by
+  unfold u32pred
+  have : n ≠ 0 := by omega
+  simp only [this, if_false]
+  apply Nat.mod_eq_of_lt
+  omega
+
+theorem inRange_arith (L C sl sc ec : Nat) (h1 : 1 ≤ sl) (h4 : 1 ≤ sc) (h5 : sc ≤ ec) :
+    positionInRange ⟨L, C⟩ ⟨sl, sc, sl, ec⟩ =
+      ((sl - 1 == L) && (sl - 1 == L) && decide (sc - 1 ≤ C) && decide (C ≤ ec - 1)) := by
+  unfold positionInRange
+  by_cases hl : L + 1 = sl
+  · subst hl
+    by_cases c1 : C + 1 < sc
+    · have : ¬ (sc - 1 ≤ C) := by omega
+      simp [c1, this]
+    · by_cases c2 : C + 1 > ec
+      · have : ¬ (C ≤ ec - 1) := by omega
+        simp [c1, c2, this]
+      · have a : sc - 1 ≤ C := by omega
+        have b : C ≤ ec - 1 := by omega
+        have c2' : ¬ (ec < C + 1) := by omega
+        simp [c1, c2', a, b]
+  · have e1 : ¬ (sl - 1 = L) := by omega
+    have : L + 1 < sl ∨ sl < L + 1 := by omega
+    rcases this with h | h <;> simp [e1, h]
+
+theorem positionInRange_eq_has (n : TNode) (hs : n.sane = true) (p : LPos) :
+    positionInRange p n.range = n.toSpan.has p := by
+  simp only [TNode.sane, Bool.and_eq_true, decide_eq_true_eq, beq_iff_eq] at hs
+  obtain ⟨⟨⟨⟨⟨h1, h2⟩, h3⟩, h4⟩, h5⟩, h6⟩ := hs
+  have a1 := u32pred_of_sane _ h1 h3
+  have a3 := u32pred_of_sane _ h4 (by omega)
+  have a4 := u32pred_of_sane n.range.ec (by omega) h6
+  have := inRange_arith p.line p.char n.range.sl n.range.sc n.range.ec h1 h4 h5
+  simp only [Span.has, TNode.toSpan, toLsp, a1, a3, a4, ← h2]
+  rw [← this]
+  congr 1
+  cases hr : n.range
+  simp only [hr] at h2
+  simp [h2]
+
+theorem postings_sound (pos : LPos) (ps : List Posting) (t : Target)
+    (h : targetInPostings pos ps = some t) :
+    ∃ p ∈ ps, ∃ n ∈ postingNodes p, positionInRange pos n.range = true ∧ t = tgt n := by
+  induction ps with
+  | nil => simp [targetInPostings] at h
+  | cons p ps ih =>
+    simp only [targetInPostings] at h
+    split at h
+    · rename_i hr
+      simp only [Option.some.injEq] at h
+      exact ⟨p, by simp, acctNode p.account false, (mem_postingNodes p _).mpr (Or.inl rfl), hr, h.symm⟩
+    · split at h
+      · rename_i c hc
+        simp only [Option.some.injEq] at h
+        have hm := List.mem_of_find?_eq_some hc
+        have hp := List.find?_some hc
+        simp only [Bool.and_eq_true, bne_iff_ne, ne_eq] at hp
+        exact ⟨p, by simp, comNode c, (mem_postingNodes p _).mpr (Or.inr ⟨c, hm, hp.1, rfl⟩), hp.2, h.symm⟩
+      · obtain ⟨q, hq, n, hn, hr, ht⟩ := ih h
+        exact ⟨q, by simp [hq], n, hn, hr, ht⟩
+
+theorem postings_complete (pos : LPos) (ps : List Posting) (p : Posting) (n : TNode)
+    (hp : p ∈ ps) (hn : n ∈ postingNodes p) (hr : positionInRange pos n.range = true) :
+    (targetInPostings pos ps).isSome = true := by
+  induction ps with
+  | nil => cases hp
+  | cons q qs ih =>
+    simp only [targetInPostings]
+    split
+    · rfl
+    · rename_i hacc
+      split
+      · rfl
+      · rename_i hnone
+        simp only [List.mem_cons] at hp
+        rcases hp with rfl | hp
+        · exfalso
+          rcases (mem_postingNodes p n).mp hn with h | ⟨c, hc, hs, h⟩
+          · subst h; exact hacc hr
+          · subst h
+            have := List.find?_eq_none.mp hnone c hc
+            simp [hs, comNode] at this
+            simp [comNode] at hr
+            rw [hr] at this; cases this
+        · exact ih hp
+
+theorem txs_sound (pos : LPos) (txs : List Transaction) (t : Target)
+    (h : targetInTxs pos txs = some t) :
+    ∃ tx ∈ txs, ∃ n ∈ txNodes tx, positionInRange pos n.range = true ∧ t = tgt n := by
+  induction txs with
+  | nil => simp [targetInTxs] at h
+  | cons tx txs ih =>
+    simp only [targetInTxs] at h
+    split at h
+    · rename_i hc
+      simp only [Bool.and_eq_true, bne_iff_ne, ne_eq] at hc
+      simp only [Option.some.injEq] at h
+      exact ⟨tx, by simp, payNode tx, (mem_txNodes tx _).mpr (Or.inl ⟨hc.1, rfl⟩), hc.2, h.symm⟩
+    · split at h
+      · rename_i t' ht'
+        simp only [Option.some.injEq] at h
+        subst h
+        obtain ⟨p, hp, n, hn, hr, ht⟩ := postings_sound pos tx.postings t' ht'
+        exact ⟨tx, by simp, n, (mem_txNodes tx n).mpr (Or.inr ⟨p, hp, hn⟩), hr, ht⟩
+      · obtain ⟨q, hq, n, hn, hr, ht⟩ := ih h
+        exact ⟨q, by simp [hq], n, hn, hr, ht⟩
+
+theorem txs_complete (pos : LPos) (txs : List Transaction) (tx : Transaction) (n : TNode)
+    (htx : tx ∈ txs) (hn : n ∈ txNodes tx) (hr : positionInRange pos n.range = true) :
+    (targetInTxs pos txs).isSome = true := by
+  induction txs with
+  | nil => cases htx
+  | cons q qs ih =>
+    simp only [targetInTxs]
+    split
+    · rfl
+    · rename_i hpay
+      split
+      · rfl
+      · rename_i hnone
+        simp only [List.mem_cons] at htx
+        rcases htx with rfl | htx
+        · exfalso
+          rcases (mem_txNodes tx n).mp hn with ⟨hne, h⟩ | ⟨p, hp, h⟩
+          · subst h
+            apply hpay
+            simp only [Bool.and_eq_true, bne_iff_ne, ne_eq]
+            exact ⟨hne, hr⟩
+          · have := postings_complete pos tx.postings p n hp h hr
+            rw [hnone] at this; cases this
+        · exact ih htx
+
+theorem directive_sound (pos : LPos) (d : Directive) (t : Target) (h : targetInDirective pos d = some t) :
+    ∃ n ∈ directiveNodes d, positionInRange pos n.range = true ∧ t = tgt n := by
+  cases d with
+  | account a tg c s r =>
+    simp only [targetInDirective] at h
+    split at h
+    · rename_i hr
+      simp only [Option.some.injEq] at h
+      exact ⟨acctNode a true, by simp [directiveNodes_eq], hr, h.symm⟩
+    · cases h
+  | commodity c f nt s r =>
+    simp only [targetInDirective] at h
+    split at h
+    · rename_i hc
+      simp only [Bool.and_eq_true, bne_iff_ne, ne_eq] at hc
+      simp only [Option.some.injEq] at h
+      exact ⟨dirComNode c true, by simp [directiveNodes_eq, hc.1], hc.2, h.symm⟩
+    · cases h
+  | price dt c p r =>
+    simp only [targetInDirective] at h
+    split at h
+    · rename_i hc
+      simp only [Bool.and_eq_true, bne_iff_ne, ne_eq] at hc
+      simp only [Option.some.injEq] at h
+      exact ⟨dirComNode c false, by simp [directiveNodes_eq, hc.1], hc.2, h.symm⟩
+    · split at h
+      · rename_i hc
+        simp only [Bool.and_eq_true, bne_iff_ne, ne_eq] at hc
+        simp only [Option.some.injEq] at h
+        exact ⟨comNode p.commodity, by simp [directiveNodes_eq, hc.1], hc.2, h.symm⟩
+      · cases h
+  | year y r => simp [targetInDirective] at h
+  | defaultCommodity s f r => simp [targetInDirective] at h
+
+theorem directive_complete (pos : LPos) (d : Directive) (n : TNode) (hn : n ∈ directiveNodes d)
+    (hr : positionInRange pos n.range = true) : (targetInDirective pos d).isSome = true := by
+  cases d with
+  | account a tg c s r =>
+    simp only [directiveNodes_eq, List.mem_singleton] at hn
+    subst hn
+    simp only [acctNode] at hr
+    simp [targetInDirective, hr]
+  | commodity c f nt s r =>
+    simp only [directiveNodes_eq] at hn
+    split at hn
+    · cases hn
+    · rename_i hs
+      simp only [List.mem_singleton] at hn
+      subst hn
+      simp only [dirComNode] at hr
+      simp [targetInDirective, hr, hs]
+  | price dt c p r =>
+    simp only [directiveNodes_eq, List.mem_append] at hn
+    simp only [targetInDirective]
+    split
+    · rfl
+    · rename_i h1
+      rcases hn with hn | hn <;> split at hn
+      · cases hn
+      · rename_i hs
+        simp only [List.mem_singleton] at hn
+        subst hn
+        simp only [dirComNode] at hr
+        exfalso; apply h1; simp [hs, hr]
+      · cases hn
+      · rename_i hs
+        simp only [List.mem_singleton] at hn
+        subst hn
+        simp only [comNode] at hr
+        simp [hs, hr]
+  | year y r => simp [directiveNodes_eq] at hn
+  | defaultCommodity s f r => simp [directiveNodes_eq] at hn
+
+theorem directives_sound (pos : LPos) (ds : List Directive) (t : Target)
+    (h : targetInDirectives pos ds = some t) :
+    ∃ d ∈ ds, ∃ n ∈ directiveNodes d, positionInRange pos n.range = true ∧ t = tgt n := by
+  induction ds with
+  | nil => simp [targetInDirectives] at h
+  | cons d ds ih =>
+    simp only [targetInDirectives] at h
+    split at h
+    · rename_i t' ht'
+      simp only [Option.some.injEq] at h
+      subst h
+      obtain ⟨n, hn, hr, ht⟩ := directive_sound pos d t' ht'
+      exact ⟨d, by simp, n, hn, hr, ht⟩
+    · obtain ⟨q, hq, n, hn, hr, ht⟩ := ih h
+      exact ⟨q, by simp [hq], n, hn, hr, ht⟩
+
+theorem directives_complete (pos : LPos) (ds : List Directive) (d : Directive) (n : TNode)
+    (hd : d ∈ ds) (hn : n ∈ directiveNodes d) (hr : positionInRange pos n.range = true) :
+    (targetInDirectives pos ds).isSome = true := by
+  induction ds with
+  | nil => cases hd
+  | cons q qs ih =>
+    simp only [targetInDirectives]
+    split
+    · rfl
+    · rename_i hnone
+      simp only [List.mem_cons] at hd
+      rcases hd with rfl | hd
+      · have := directive_complete pos d n hn hr
+        rw [hnone] at this; cases this
+      · exact ih hd
+
+/-- `findDefinitionTarget` only ever answers with a name-bearing node under the cursor. -/
+theorem target_sound (j : Journal) (pos : LPos) (t : Target) (h : findDefinitionTarget j pos = some t) :
+    ∃ n ∈ treeTNodes j, positionInRange pos n.range = true ∧ t = tgt n := by
+  simp only [findDefinitionTarget] at h
+  split at h
+  · rename_i t' ht'
+    simp only [Option.some.injEq] at h
+    subst h
+    obtain ⟨tx, htx, n, hn, hr, ht⟩ := txs_sound pos _ t' ht'
+    exact ⟨n, by simp only [treeTNodes, List.mem_append, List.mem_flatMap]; exact Or.inl ⟨tx, htx, hn⟩, hr, ht⟩
+  · obtain ⟨d, hd, n, hn, hr, ht⟩ := directives_sound pos _ t h
+    exact ⟨n, by simp only [treeTNodes, List.mem_append, List.mem_flatMap]; exact Or.inr ⟨d, hd, hn⟩, hr, ht⟩
+
+/-- … and it answers whenever some name-bearing node is under the cursor. -/
+theorem target_complete (j : Journal) (pos : LPos) (n : TNode) (hn : n ∈ treeTNodes j)
+    (hr : positionInRange pos n.range = true) : (findDefinitionTarget j pos).isSome = true := by
+  simp only [findDefinitionTarget]
+  split
+  · rfl
+  · rename_i hnone
+    simp only [treeTNodes, List.mem_append, List.mem_flatMap] at hn
+    rcases hn with ⟨tx, htx, hn⟩ | ⟨d, hd, hn⟩
+    · have := txs_complete pos _ tx n htx hn hr
+      rw [hnone] at this; cases this
+    · exact directives_complete pos _ d n hd hn hr
+
+/-! ### rename: the edit map, applying edits -/
+
+theorem mem_changes_add (c : Changes) (q : Path) (x : TextEdit) (p : Path) (e : TextEdit) :
+    (∃ es, (p, es) ∈ c.add q x ∧ e ∈ es) ↔ (∃ es, (p, es) ∈ c ∧ e ∈ es) ∨ (p = q ∧ e = x) := by
+  induction c with
+  | nil =>
+    simp only [Changes.add, List.mem_singleton, Prod.mk.injEq, List.not_mem_nil, false_and, exists_false, false_or]
+    constructor
+    · rintro ⟨es, ⟨rfl, rfl⟩, he⟩
+      simp only [List.mem_singleton] at he
+      exact ⟨rfl, he⟩
+    · rintro ⟨rfl, rfl⟩
+      exact ⟨[e], ⟨rfl, rfl⟩, by simp⟩
+  | cons hd tl ih =>
+    obtain ⟨k, ks⟩ := hd
+    simp only [Changes.add]
+    split
+    · rename_i hk
+      simp only [beq_iff_eq] at hk
+      subst hk
+      simp only [List.mem_cons, Prod.mk.injEq]
+      constructor
+      · rintro ⟨es, (⟨rfl, rfl⟩ | h), he⟩
+        · simp only [List.mem_append, List.mem_singleton] at he
+          rcases he with he | he
+          · exact Or.inl ⟨ks, Or.inl ⟨rfl, rfl⟩, he⟩
+          · exact Or.inr ⟨rfl, he⟩
+        · exact Or.inl ⟨es, Or.inr h, he⟩
+      · rintro (⟨es, (⟨rfl, rfl⟩ | h), he⟩ | ⟨rfl, rfl⟩)
+        · exact ⟨es ++ [x], Or.inl ⟨rfl, rfl⟩, by simp [he]⟩
+        · exact ⟨es, Or.inr h, he⟩
+        · exact ⟨ks ++ [e], Or.inl ⟨rfl, rfl⟩, by simp⟩
+    · simp only [List.mem_cons, Prod.mk.injEq]
+      constructor
+      · rintro ⟨es, (⟨rfl, rfl⟩ | h), he⟩
+        · exact Or.inl ⟨es, Or.inl ⟨rfl, rfl⟩, he⟩
+        · rcases ih.mp ⟨es, h, he⟩ with ⟨es', h', he'⟩ | h'
+          · exact Or.inl ⟨es', Or.inr h', he'⟩
+          · exact Or.inr h'
+      · rintro (⟨es, (⟨rfl, rfl⟩ | h), he⟩ | h)
+        · exact ⟨es, Or.inl ⟨rfl, rfl⟩, he⟩
+        · obtain ⟨es', h', he'⟩ := ih.mpr (Or.inl ⟨es, h, he⟩)
+          exact ⟨es', Or.inr h', he'⟩
+        · obtain ⟨es', h', he'⟩ := ih.mpr (Or.inr h)
+          exact ⟨es', Or.inr h', he'⟩
+
+theorem mem_changes_foldl (locs : List Loc) (new : Bytes) (c : Changes) (p : Path) (e : TextEdit) :
+    (∃ es, (p, es) ∈ locs.foldl (fun c l => c.add l.path ⟨l.range, new⟩) c ∧ e ∈ es) ↔
+      (∃ es, (p, es) ∈ c ∧ e ∈ es) ∨ ∃ l ∈ locs, l.path = p ∧ e = ⟨l.range, new⟩ := by
+  induction locs generalizing c with
+  | nil => simp
+  | cons l ls ih =>
+    simp only [List.foldl_cons, ih, mem_changes_add, List.mem_cons]
+    constructor
+    · rintro ((h | ⟨rfl, rfl⟩) | ⟨l', hl', h⟩)
+      · exact Or.inl h
+      · exact Or.inr ⟨l, Or.inl rfl, rfl, rfl⟩
+      · exact Or.inr ⟨l', Or.inr hl', h⟩
+    · rintro (h | ⟨l', (rfl | hl'), h⟩)
+      · exact Or.inl (Or.inl h)
+      · exact Or.inl (Or.inr ⟨h.1.symm, h.2⟩)
+      · exact Or.inr ⟨l', hl', h⟩
+
+theorem applyEditsBackwards_cons {α} (l : List α) (se : Nat × Nat) (rest : List (Nat × Nat)) (new : List α) :
+    applyEditsBackwards l (se :: rest) new = applyEdit (applyEditsBackwards l rest new) se new := by
+  simp [applyEditsBackwards, List.foldl_append]
+
+theorem applyEdits_eq_subst {α} (l : List α) (new : List α) (spans : List (Nat × Nat)) (off : Nat)
+    (h : spansOK l.length off spans) :
+    applyEditsBackwards l spans new = l.take off ++ substSpans (l.drop off) off spans new := by
+  induction spans generalizing off with
+  | nil => simp [applyEditsBackwards, substSpans]
+  | cons se rest ih =>
+    obtain ⟨s, e⟩ := se
+    simp only [spansOK] at h
+    obtain ⟨h1, h2, h3, h4⟩ := h
+    rw [applyEditsBackwards_cons, ih e h4]
+    simp only [applyEdit, substSpans]
+    have ht : (l.take e).length = e := by simp [List.length_take]; omega
+    have e1 : (List.take e l ++ substSpans (List.drop e l) e rest new).take s = l.take s := by
+      rw [List.take_append_of_le_length (by omega), List.take_take]
+      congr 1; omega
+    have e2 : (List.take e l ++ substSpans (List.drop e l) e rest new).drop e = substSpans (List.drop e l) e rest new := by
+      rw [List.drop_append_of_le_length (by omega)]
+      have : (List.take e l).drop e = [] := by simp
+      rw [this, List.nil_append]
+    rw [e1, e2]
+    have e3 : (l.drop off).drop (e - off) = l.drop e := by
+      rw [List.drop_drop]; congr 1; omega
+    have e4 : l.take off ++ (l.drop off).take (s - off) = l.take s := by
+      have := List.take_add (l := l) (i := off) (j := s - off)
+      rw [show off + (s - off) = s by omega] at this
+      exact this.symm
+    rw [e3, ← List.append_assoc, ← List.append_assoc, e4, List.append_assoc]
+
 end HL.Lemmas.Refs
